@@ -403,10 +403,6 @@ pub fn run(cfg: &Cfg, rep: &mut Rep) {
                 }
             }
             1 => gen::rand_count_within(&mut r, 100 * NS_S) - if r.bool() { crate::model::scale::greg_zero_ns(s) * 0 } else { 0 },
-            2 if k % 16 == 7 => {
-                rep.class("views/far-range");
-                r.range_i128(MIN_NS + 70 * NPC, MAX_NS - 70 * NPC) // (the Julian-date views add 66 centuries: kept representable)
-            }
             _ => gen::rand_reading(&mut r, s, &lats[si]),
         };
         check_views(rep, &w, c, s);
